@@ -31,6 +31,15 @@ def dataclass_fields(
 class JSONBase(AsJSONMixin):
     def __init_subclass__(cls: type, **kwargs):
         super().__init_subclass__(**kwargs)
+        existing = __from_json__class__.get(cls.__name__)
+        if (
+            existing is not None
+            and existing.__module__.startswith('tatsu.peg')
+            and not cls.__module__.startswith('tatsu.peg')
+        ):
+            # NOTE: a model class synthesized for a rule such as `x::Token`
+            #   must not replace the grammar-model class Grammar.load() needs
+            return
         __from_json__class__[cls.__name__] = cls
 
     @classmethod
